@@ -6,6 +6,7 @@ import (
 	"io"
 	"strconv"
 	"strings"
+	"unicode/utf8"
 
 	schema "github.com/jsightapi/jsight-schema-core"
 	jbytes "github.com/jsightapi/jsight-schema-core/bytes"
@@ -159,6 +160,35 @@ type outcome struct {
 
 func valErr(val string, err error) string { return val + " ; err=" + errText(err) }
 
+// sanit makes an observation valid UTF-8 without losing information (invalid
+// bytes become \xNN), so that it survives JSON transport between processes
+// byte for byte.
+func sanit(s string) string {
+	if utf8.ValidString(s) {
+		return s
+	}
+	var sb strings.Builder
+	for i := 0; i < len(s); {
+		r, n := utf8.DecodeRuneInString(s[i:])
+		if r == utf8.RuneError && n == 1 {
+			sb.WriteString("\\x" + strconv.FormatUint(uint64(s[i]), 16))
+		} else {
+			sb.WriteString(s[i : i+n])
+		}
+		i += n
+	}
+	return sb.String()
+}
+
+func (o outcome) sanitized() outcome {
+	o.obs = sanit(o.obs)
+	if o.live != nil {
+		f := o.live
+		o.live = func() string { return sanit(f()) }
+	}
+	return o
+}
+
 func bytesOutcome(b []byte, err error) outcome {
 	o := outcome{obs: valErr(strconv.Quote(string(b)), err)}
 	if b != nil {
@@ -227,7 +257,9 @@ func validPerm(p []int, n int) bool {
 // build creates the object and registers rules then types in the given
 // orders; the observation lists each registration's result in *declared*
 // order, so it is comparable across registration orders.
-func (in *inst) build(op *Op) outcome {
+func (in *inst) build(op *Op) outcome { return in.rawBuild(op).sanitized() }
+
+func (in *inst) rawBuild(op *Op) outcome {
 	p := in.proj
 	in.built = true
 	switch p.Kind {
@@ -275,7 +307,12 @@ func (in *inst) schema() schema.Schema {
 
 // call performs one read-only operation. The observation key is op kind (plus
 // the call index for the stateful regex Example()).
-func (in *inst) call(kind string, sharedObj bool) (key string, out outcome) {
+func (in *inst) call(kind string, sharedObj bool) (string, outcome) {
+	key, out := in.rawCall(kind, sharedObj)
+	return key, out.sanitized()
+}
+
+func (in *inst) rawCall(kind string, sharedObj bool) (key string, out outcome) {
 	key = kind
 	defer func() {
 		if r := recover(); r != nil {
